@@ -28,13 +28,13 @@ type Flavour struct {
 	Prop string
 	// operation weights
 	WCreate, WMerge, WSet, WSetChild, WRemove, WChild, WRead, WIllegal int
-	Policies   []model.Handling // global policies the merges draw from
-	FieldOpts  bool             // merges carry per-field policies (C16)
-	CfgSources bool             // merges take *Config sources, also embedded (C10)
-	Mixed      bool             // allow merges that produce nodes with both parts
-	Nil        bool             // nil values and empty containers in operands
-	Meta       bool             // create with source metadata
-	MoveBias   bool             // bias towards element-moving operations (C15)
+	Policies                                                           []model.Handling // global policies the merges draw from
+	FieldOpts                                                          bool             // merges carry per-field policies (C16)
+	CfgSources                                                         bool             // merges take *Config sources, also embedded (C10)
+	Mixed                                                              bool             // allow merges that produce nodes with both parts
+	Nil                                                                bool             // nil values and empty containers in operands
+	Meta                                                               bool             // create with source metadata
+	MoveBias                                                           bool             // bias towards element-moving operations (C15)
 }
 
 // W is the world of one run.
